@@ -490,9 +490,12 @@ class ServiceDiscoveryProtocol(SOMEIPDatagramProtocol):
         asyncio.get_event_loop().call_soon(self.announcer.connection_lost, exc)
 
     def reboot_detected(self, addr: _T_SOCKADDR) -> None:
-        asyncio.get_event_loop().call_soon(self.subscriber.reboot_detected, addr)
-        asyncio.get_event_loop().call_soon(self.discovery.reboot_detected, addr)
-        asyncio.get_event_loop().call_soon(self.announcer.reboot_detected, addr)
+        # apply the reboot before any entry of the message that revealed it is handled:
+        # Subscribe and FindService entries are dispatched immediately, so a deferred
+        # reboot would drop the subscriptions this very message establishes
+        self.subscriber.reboot_detected(addr)
+        self.discovery.reboot_detected(addr)
+        self.announcer.reboot_detected(addr)
 
     def sd_message_received(
         self, sdhdr: someip.header.SOMEIPSDHeader, addr: _T_SOCKADDR, multicast: bool
